@@ -37,6 +37,7 @@ def hunk_text_inst(ops, o, n, a, b):
     arr = ", ".join("b'%s'" % c for c in ops)
     call = "t_hunk_text::<%d, %d>([%s], %d, %d, %s, %s)" % (size, k, arr, o, n, str(a).lower(), str(b).lower())
     return Instance(name, "parser", call, unwind=max(size, 30) + 2, unwindset={"memcmp.0": 6}, stubs=[FROM_UTF8_STUB], mem_gb=9, timeout_s=1800,
+                    unwind_fns={"libpatch::patch::unified::parser::parse_hunk.0": k + 2, "memchr::memchr.0": 31},
                     sub="C01 lemma 1: hunk text -> Hunk", must_cover=["hunk text parsed"],
                     params=dict(edit_script=ops, old_start=o, new_start=n, no_newline_old_last=a, no_newline_new_last=b))
 
@@ -45,7 +46,8 @@ def spec(tier, seed):
     q = tier == "quick"
     inst = []
     # lemma 1
-    texts = HUNK_TEXTS if not q else [HUNK_TEXTS[i] for i in (0, 2, 3, 8, 12, 16)] + rotate(HUNK_TEXTS, seed, 3)
+    short = [t for t in HUNK_TEXTS if len(t[0]) <= 2]
+    texts = HUNK_TEXTS if not q else [t for t in short if t[0] in ("+", "-")][:6] + rotate(short, seed, 4)
     seen = set()
     for t in texts:
         if t in seen:
@@ -56,7 +58,7 @@ def spec(tier, seed):
     for (nm, text, strip, kind, old, new, ren, nh, nf) in (DIALECTS if not q else DIALECTS[:9]):
         call = "t_dialect(%s, %d, %d, %s, %s, %s, %d, %d)" % (bytes_lit(text), strip, kind, bytes_lit(old), bytes_lit(new), str(ren).lower(), nh, nf)
         inst.append(Instance("c01l2_%s" % nm, "parser", call, unwind=max(len(text), 60) + 4, unwindset={"memcmp.0": 20}, stubs=[FROM_UTF8_STUB],
-                             mem_gb=8, timeout_s=1500, sub="C01 lemma 2/4: header dialect end to end (concrete)", must_cover=["dialect parsed"],
+                             mem_gb=24, timeout_s=2400, sub="C01 lemma 2/4: header dialect end to end (concrete)", must_cover=["dialect parsed"],
                              params=dict(dialect=nm, strip=strip)))
     for L, qd in ((4, False), (4, True)) if q else ((3, False), (5, False), (3, True), (5, True)):
         inst.append(Instance("c01l2_filename_%d_%s" % (L, "quoted" if qd else "plain"), "parser", "t_filename_value::<%d>(%s)" % (L, str(qd).lower()),
@@ -72,11 +74,19 @@ def spec(tier, seed):
         for d in ("fwd", "rev"):
             side = sh[0] + (sh[1] if d == "fwd" else sh[2]) + sh[3]
             for n in (6,):
-                for l in sorted(set([0, 1, n - side])):
+                # what a diff tool emits: less leading than trailing context only at the start of the file,
+                # less trailing than leading context only at its end
+                if sh[0] < sh[3]:
+                    ls_ = [0]
+                elif sh[3] < sh[0]:
+                    ls_ = [n - side]
+                else:
+                    ls_ = sorted(set([0, 1, n - side]))
+                for l in ls_:
                     if l >= 0 and l + side <= n:
                         one.append((n, [sh], [l], 0, d))
-    two = [(5, [(0, 1, 1, 1), (1, 1, 0, 0)], [0, 3], 0, "fwd"), (5, [(1, 1, 2, 0), (0, 1, 0, 1)], [0, 3], 0, "fwd"),
-           (5, [(0, 0, 1, 1), (1, 1, 1, 0)], [1, 3], 0, "rev"), (4, [(0, 1, 0, 0), (0, 0, 1, 0)], [0, 3], 0, "fwd")]
+    two = [(5, [(0, 1, 1, 1), (1, 1, 0, 0)], [0, 3], 0, "fwd"), (4, [(0, 1, 0, 0), (0, 0, 1, 0)], [0, 3], 0, "fwd"),
+           (5, [(1, 1, 1, 1), (1, 1, 1, 1)], [0, 2], 0, "fwd")]
     ch1 = rotate(one, seed, 6) if q else one
     ch2 = two[:1] if q else two
     for (n, sh, ls, f, d) in ch1:
